@@ -456,6 +456,13 @@ func c12MySQL(t *testing.T, plan *kernel.Plan, keepLog bool) *kernel.Result {
 			}
 			script = append(script, sel)
 		}
+		if part == 1 && plan.Sw("big") != 1 {
+			// rows of 7, 8, 15 and 16 columns (NULLs included), text and binary protocol
+			c14WideTables(pw)
+			n := []int{7, 8, 15, 16}[int(plan.Seed>>3)%4]
+			script = append(script, Stmt{SQL: fmt.Sprintf("SELECT * FROM w%d", n)},
+				Stmt{SQL: fmt.Sprintf("SELECT * FROM w%d WHERE c0 <> ?", n), Extended: true, Args: []interface{}{"none"}})
+		}
 		run := pw.RunSession(owner, script)
 		if w.Res.Cut {
 			return
@@ -722,10 +729,18 @@ func c14MySQL(t *testing.T, plan *kernel.Plan, keepLog bool) *kernel.Result {
 			return
 		}
 		pw.maxSteps = 12000
+		c14WideTables(pw)
 		var script []Stmt
 		rows := 0
 		for _, op := range plan.Ops {
 			switch op.Kind {
+			case "wide", "wide-x":
+				n := []int{7, 8, 15, 16}[int(op.Arg(0, 0))%4]
+				st := Stmt{SQL: fmt.Sprintf("SELECT * FROM w%d", n)}
+				if op.Kind == "wide-x" {
+					st = Stmt{SQL: fmt.Sprintf("SELECT * FROM w%d WHERE c0 <> ?", n), Extended: true, Args: []interface{}{"none"}}
+				}
+				script = append(script, st)
 			case "insert", "insert-x":
 				rows++
 				var vals []string
@@ -802,5 +817,25 @@ func c14CorruptCells() func(table string, row, col int, cell []byte) []byte {
 			c = append(c, c[:min(30, len(c))]...)
 		}
 		return c
+	}
+}
+
+// c14WideTables adds tables of 7, 8, 15 and 16 text columns (the sizes around which NULL bitmaps of binary
+// rows change their length), each with a row of values, a row of NULLs and a row whose last column is NULL.
+func c14WideTables(pw *PgWorld) {
+	for _, n := range []int{7, 8, 15, 16} {
+		var cols []Col
+		for i := 0; i < n; i++ {
+			cols = append(cols, Col{fmt.Sprintf("c%d", i), TText})
+		}
+		t := pw.DB.AddTable(fmt.Sprintf("w%d", n), cols...)
+		full, nulls, last := make([][]byte, n), make([][]byte, n), make([][]byte, n)
+		for i := 0; i < n; i++ {
+			full[i] = []byte(fmt.Sprintf("v%d", i))
+			last[i] = []byte(fmt.Sprintf("w%d", i))
+		}
+		last[n-1] = nil
+		nulls[0] = []byte("x")
+		t.Rows = append(t.Rows, full, nulls, last)
 	}
 }
